@@ -21,11 +21,12 @@ const (
 	FailIndexCond // index out of range inside an if condition: reaches the rule-level recover with a non-error panic value
 	FailNonBool   // non-boolean if condition: rule-level recover, error-typed panic value
 	FailPanicBig  // injected function panicking with a multi-megabyte message: slow error construction
+	FailStoreType // a string stored into an integer field of injected data: the store panics inside reflect
 	FailFirstOnly // injected function that panics on its first invocation per call only (DAG: a rule named twice in a layer)
 	nFailKinds
 )
 
-var failNames = []string{"none", "div0", "int+string", "missing-var", "cmp-type", "panic-fn", "missing-fn", "read-foreign-local", "custom", "index-in-condition", "non-bool-condition", "panic-big-message", "panic-first-invocation-only"}
+var failNames = []string{"none", "div0", "int+string", "missing-var", "cmp-type", "panic-fn", "missing-fn", "read-foreign-local", "custom", "index-in-condition", "non-bool-condition", "panic-big-message", "store-of-wrong-type", "panic-first-invocation-only"}
 
 const (
 	RetNone = iota
@@ -139,7 +140,7 @@ func Gen(r *rand.Rand, o GenOpts) *RuleSet {
 	rs := &RuleSet{}
 	kinds := o.FailKinds
 	if kinds == nil {
-		kinds = []int{FailDivZero, FailAddString, FailMissingVar, FailCmpType, FailPanicFn, FailMissingFn, FailIndexCond, FailNonBool, FailDivZero, FailPanicFn}
+		kinds = []int{FailDivZero, FailAddString, FailMissingVar, FailCmpType, FailPanicFn, FailMissingFn, FailIndexCond, FailNonBool, FailDivZero, FailPanicFn, FailStoreType}
 		if r.Intn(8) == 0 {
 			kinds = append(kinds, FailPanicBig, FailPanicBig, FailPanicBig)
 		}
@@ -337,6 +338,8 @@ func failStmt(kind, id int) string {
 		return fmt.Sprintf("if fl(%d) { zz = 1 }", id)
 	case FailPanicBig:
 		return fmt.Sprintf("pnb(%d)", id)
+	case FailStoreType:
+		return fmt.Sprintf("tgt.F = fl(%d) + 1 tgt.F = \"s\"", id)
 	case FailFirstOnly:
 		return fmt.Sprintf("pn1(%d)", id)
 	}
